@@ -1,5 +1,5 @@
 """Texts for MANIFEST.json."""
-HOOK_COMMITS = []
+HOOK_COMMITS = ["3ece184"]
 NOT_YET = {}
 COMMON_NOTE = ("Trusted: Coq 8.16.1 kernel + vm_compute, no axioms, no extraction; the Gallina model is hand-written and tied to the code "
                "only by the correspondence run (differential, bounded by its generators); stdlib calls (fmt %v, ParseFloat, time.Parse/Unix) are "
